@@ -69,6 +69,8 @@ for d, r in sorted(res.items()):
     sid = os.path.basename(d)
     if "/out2/" in d:   # second round of seeding
         sid = sid.replace("-", "-w2-")
+    if "/s3-" in d:     # third, time boxed round
+        sid = sid.replace("-", "-w3-")
     dst = os.path.join(V, "seeded", sid)
     os.makedirs(dst, exist_ok=True)
     for f in os.listdir(d):
